@@ -422,6 +422,93 @@ def gen_routes(ctx):
     ctx._routes_rows = rows
 
 
+def user_edit_suite(ctx, env):
+    """POST /api/users/<pk> (EditUser.post decides inside its body who may change what): the row the database holds after
+    each request against Model/UserModel.edit_user, for administrator / ordinary callers x own / other / unknown account
+    x random bodies (password with and without a matching confirmation, every combination of group flags)"""
+    from ..appenv import USERS
+    rng = ctx.rng
+    m = env.models
+    GROUPS = {'userGroup': 2, 'mediaGroup': 4, 'adminGroup': 0x40000000}
+    names = {}
+
+    def nm(text):
+        return names.setdefault(text, len(names) + 1)
+    with env.app.app_context():
+        pks = {role: m.User.get(username=USERS[role][0]).pk for role in USERS}
+    passwords = {pks[role]: USERS[role][2] for role in USERS}      # what check_password accepts now
+    actors = {role: Actor(env, role) for role in ('admin', 'user', 'media')}
+
+    def row(pk):
+        with env.app.app_context():
+            u = m.User.get(pk=pk)
+            return None if u is None else (u.username, bool(u.must_change), u.email, int(u.groups_mask))
+
+    def password_of(pk, candidates):
+        with env.app.app_context():
+            u = m.User.get(pk=pk)
+            for cnd in candidates:
+                if cnd is not None and u.check_password(cnd):
+                    return cnd
+        return None
+    reqs, meta = [], []
+    for trial in range(40 if ctx.quick() else 600):
+        caller = rng.choice(['admin', 'user', 'media', 'user'])
+        target_role = rng.choice(['admin', 'user', 'media'])
+        target = pks[target_role] if rng.random() < 0.92 else 987654
+        before = row(target)
+        old_pw = passwords.get(target)
+        new_pw = rng.choice([None, '', 'Fresh#%d' % trial, 'Fresh#%d' % trial])
+        confirm = new_pw if rng.random() < 0.7 else 'other%d' % trial
+        flags = {g: rng.random() < 0.5 for g in GROUPS}
+        body = {'username': rng.choice([before[0] if before else 'x', 'renamed%d' % trial]), 'mustChange': rng.random() < 0.5,
+                'email': 'mail%d@example.test' % trial, 'password': new_pw, 'confirmPassword': confirm if new_pw else ''}
+        body.update(flags)
+        a = actors[caller]
+        r = a.c.post('/api/users/%d' % target, json=body, headers=a.headers())
+        ctx.count('http:edit-user')
+        inp = {'caller': caller, 'target': target_role if before else 'unknown', 'body': body}
+        if r.status_code >= 500:
+            ctx.violation('POST /api/users/%d by %s answers %d' % (target, caller, r.status_code), inp)
+        after = row(target)
+        if before is None:
+            if r.status_code != 404 and r.status_code < 500:
+                ctx.violation('POST /api/users/<unknown> by %s answers %d' % (caller, r.status_code), inp)
+            continue
+        now_pw = password_of(target, [old_pw, new_pw or None])
+        if now_pw is None:
+            ctx.violation('after POST /api/users/%d by %s neither the old nor the requested password is accepted' % (target, caller), inp)
+            now_pw = old_pw
+        is_admin_caller = caller == 'admin'
+        reqs.append([9, [nm(before[0]), int(before[1]), nm(before[2]), nm('pw:' + old_pw), before[3]],
+                     [int(is_admin_caller), pks[caller], target, nm(body['username']), int(body['mustChange']), nm(body['email']),
+                      [nm('pw:' + new_pw)] if new_pw else [], nm('pw:' + (confirm if new_pw else '')),
+                      sum(v for g, v in GROUPS.items() if flags[g])]])
+        meta.append((inp, before, after, nm('pw:' + old_pw), nm('pw:' + now_pw), r.status_code))
+        ctx.dist('edit-user:%s->%s' % (caller, 'self' if pks[caller] == target else 'other'))
+        # put the account back (renaming the caller would invalidate its own token)
+        with env.app.app_context():
+            u = m.User.get(pk=target)
+            u.username, u.must_change, u.email, u.groups_mask = before
+            u.set_password(old_pw)
+            m.db.session.commit()
+    res = common.run_model_parallel(15, reqs)
+    ok = True
+    for (inp, before, after, old_id, now_id, status), mo in zip(meta, res):
+        ctx.count('corr:edit-user')
+        if mo[0] == 2:
+            want = (mo[1], bool(mo[2]), mo[3], mo[5], mo[4])
+        else:
+            want = (names[before[0]], before[1], names[before[2]], before[3], old_id)
+        got = (names.get(after[0]), after[1], names.get(after[2]), after[3], now_id)
+        if want != got:
+            ok = False
+            ctx.disagree('edit_user', inp, {'outcome': mo[0], 'row': list(want)}, {'status': status, 'row': list(got)})
+        elif mo[0] == 2 and (after != before or now_id != old_id):
+            ctx.nontriv(('edit-user', inp['caller'], inp['target'], tuple(sorted((k, str(v)) for k, v in inp['body'].items()))))
+    ctx.oblige('correspondence:EditUser.post-vs-UserModel.edit_user', ok and bool(reqs))
+
+
 def run(ctx):
     import logging
     logging.disable(logging.CRITICAL)
@@ -444,6 +531,9 @@ def run(ctx):
     env2 = build_env(ctx, 'csrf')
     csrf_suite(ctx, env2)
     env2.close()
+    env3 = build_env(ctx, 'users')
+    user_edit_suite(ctx, env3)
+    env3.close()
 
 
 def replay(ctx, payload):
